@@ -30,6 +30,13 @@ use crate::{
     xtypes::deserializer::deserialize_top_level_type,
 };
 
+/// A submessage that names a reader is for that reader only; ENTITYID_UNKNOWN addresses every reader matched with
+/// the writer (RTPS 8.3.7). Readers of one participant have separate proxies on the writer: what is sent to one of
+/// them (for instance the GAP that tells a volatile reader to skip the history) must not change the state of another
+fn is_addressed_to(reader_id: crate::transport::types::EntityId, reader_guid: Guid) -> bool {
+    reader_id == crate::transport::types::ENTITYID_UNKNOWN || reader_id == reader_guid.entity_id()
+}
+
 impl DcpsDomainParticipant {
     #[tracing::instrument(skip(self, runtime))]
     pub fn process_user_defined_received_cache_changes(&mut self, runtime: &impl DdsRuntime) {
@@ -563,6 +570,9 @@ impl DcpsDomainParticipant {
                     .stateful_data_reader_list_mut(),
             )
         {
+            if !is_addressed_to(data_submessage.reader_id(), dr.transport_reader.guid()) {
+                continue;
+            }
             dr.transport_reader.on_data_submessage(
                 data_submessage,
                 message_receiver.source_guid_prefix(),
@@ -592,6 +602,9 @@ impl DcpsDomainParticipant {
                 message_receiver.source_guid_prefix(),
                 gap_submessage.writer_id(),
             );
+            if !is_addressed_to(gap_submessage._reader_id(), dr.transport_reader.guid()) {
+                continue;
+            }
             if let Some(writer_proxy) = dr.transport_reader.matched_writer_lookup(writer_guid) {
                 // All the sequence numbers in gap_start..base are irrelevant. Marking the last one marks
                 // the whole range, without iterating over a range whose bounds come from the wire
@@ -622,6 +635,9 @@ impl DcpsDomainParticipant {
                     heartbeat_submessage.writer_id(),
                 );
                 let reader_guid = dr.transport_reader.guid();
+                if !is_addressed_to(heartbeat_submessage._reader_id(), reader_guid) {
+                    continue;
+                }
                 if let Some(writer_proxy) = dr.transport_reader.matched_writer_lookup(writer_guid) {
                     if writer_proxy.last_received_heartbeat_count() < heartbeat_submessage.count() {
                         writer_proxy
@@ -656,6 +672,9 @@ impl DcpsDomainParticipant {
                 heartbeat_submessage.writer_id(),
             );
             let reader_guid = dr.transport_reader.guid();
+            if !is_addressed_to(heartbeat_submessage._reader_id(), reader_guid) {
+                continue;
+            }
             if let Some(writer_proxy) = dr.transport_reader.matched_writer_lookup(writer_guid) {
                 if writer_proxy.last_received_heartbeat_count() < heartbeat_submessage.count() {
                     writer_proxy.set_last_received_heartbeat_count(heartbeat_submessage.count());
@@ -690,6 +709,9 @@ impl DcpsDomainParticipant {
                     .stateful_data_reader_list_mut(),
             )
         {
+            if !is_addressed_to(data_frag_submessage.reader_id(), dr.transport_reader.guid()) {
+                continue;
+            }
             dr.transport_reader.on_data_frag_submessage(
                 data_frag_submessage,
                 message_receiver.source_guid_prefix(),
